@@ -87,7 +87,14 @@ def cache_flow(ctx: Ctx) -> RuleResult:
     if "." not in M:
         rets = [n for n in iter_own_nodes(f.node) if isinstance(n, ast.Return) and n.value is not None]
         returned = [x for x in rets if dotted(x.value) == M]
-        r.ob(bool(returned) and len(returned) == len(rets), {"returned": bool(returned)})
+        ret_pos = None
+        if not returned and rets and all(isinstance(x.value, ast.Tuple) for x in rets):
+            # returned as one element of a tuple (with the graph of the run, ...): callers unpack it position-wise
+            poss = {i for x in rets for i, e_ in enumerate(x.value.elts) if dotted(e_) == M}
+            if len(poss) == 1 and all(any(dotted(e_) == M for e_ in x.value.elts) for x in rets):
+                ret_pos = poss.pop()
+                returned = list(rets)
+        r.ob(bool(returned) and len(returned) == len(rets), {"returned": bool(returned), "as element": ret_pos})
         if not returned:
             r.violate(f"{f.short}: the merged results are dropped (not returned)", f.loc(), "the cached entries never reach the scheduler", M)
             return r
@@ -96,15 +103,20 @@ def cache_flow(ctx: Ctx) -> RuleResult:
         r.ob(len(init) >= 1, {"merged map initialised from": [norm_src(x.value) for x in init]})
         for f2, call in ctx.callers_of(f.qualname):
             st = None
+            unpacked = None
             for n in iter_own_nodes(f2.node):
-                if isinstance(n, ast.Assign) and n.value is call and isinstance(n.targets[0], ast.Name):
+                if isinstance(n, ast.Assign) and n.value is call and isinstance(n.targets[0], ast.Name) and ret_pos is None:
                     st = n
+                if isinstance(n, ast.Assign) and n.value is call and isinstance(n.targets[0], (ast.Tuple, ast.List)) and ret_pos is not None \
+                        and ret_pos < len(n.targets[0].elts) and isinstance(n.targets[0].elts[ret_pos], ast.Name):
+                    st = n
+                    unpacked = n.targets[0].elts[ret_pos].id
             if st is None:
                 r.ob(False, {"caller": f2.short})
                 r.violate(f"{f2.short}: the results prepared by {f.name} are discarded", f2.loc(call),
                           "the cached entries never reach the scheduler", norm_src(call))
                 continue
-            name = st.targets[0].id
+            name = unpacked if unpacked is not None else st.targets[0].id
             passed = False
             for c2, q2 in ctx.calls_in(f2):
                 if q2 in ctx.P.funcs and ctx.P.funcs[q2].name == "run_subgraph":
